@@ -14,13 +14,13 @@ for d in sorted(glob.glob('/verif/seeded/*/')):
     desc = re.sub(r'\s+', ' ', desc)[:170]
     rows.append((os.path.basename(d.rstrip('/')), desc, m['detected']['summary']))
 def rnd(name):
-    return 3 if '-r3-' in name else 2 if '-r2-' in name else 1
+    return 4 if '-r4-' in name else 3 if '-r3-' in name else 2 if '-r2-' in name else 1
 stats = {}
 for r in rows:
     k = rnd(r[0])
     st = stats.setdefault(k, [0, 0])
     st[0] += 1
-    if 'MISSED' in r[2] or 'not caught' in r[2] or 'INCONCLUSIVE' in r[2]:
+    if 'missed' in r[2].lower() or 'not caught' in r[2] or 'INCONCLUSIVE' in r[2]:
         st[1] += 1
 out = f"""
 ## 9. Seeded breaking changes and which checks catch them
@@ -30,10 +30,13 @@ out = f"""
 for three more per property in other functions and by other mechanisms, harder to hit (rarer than 1 in 200 for small
 uniform inputs, or only beyond some size, or only after a specific history), at least one silent; round 3 for two more,
 given the list of the five earlier ones, aimed at rarely combined calls, state surviving across calls, edges of the
-documented domain and components an obvious oracle does not look at. Each change compiles, passes the repository's own
+documented domain and components an obvious oracle does not look at; round 4 for two more, given the earlier seven,
+aimed at helper packages the anchored code calls into (ints, sortints, comb, views), at the order and repetition of
+calls (accessors that hand out internal state, caches keyed by identity, re-initialised builders, re-entrant calls)
+and at sizes past every threshold the earlier rounds had provoked. Each change compiles, passes the repository's own
 test-suite and comes with a demonstration test that fails with the change and passes without it; all of that was
 re-confirmed with `tools/eval_mut.sh` (C19-r2-2 by hand under `-race`) before the change was kept under
-`seeded/<property>-<k>/`, `seeded/<property>-r2-<k>/`, `seeded/<property>-r3-<k>/` (`patch.diff`, `demo_test.go.txt`,
+`seeded/<property>-<k>/`, `seeded/<property>-r<round>-<k>/` (`patch.diff`, `demo_test.go.txt`,
 `note.md`, `meta.json`). To run the checks against one: `git -C /repo apply seeded/<id>/patch.diff; ./check <ID>;
 git -C /repo checkout -- .`.
 
@@ -41,10 +44,13 @@ git -C /repo checkout -- .`.
 |---|---|---|---|
 """ + "".join(f"| {k} | {v[0]} | {v[0]-v[1]} | {v[1]} |\n" for k, v in sorted(stats.items())) + """
 (For round 2 the checks had already been extended after reading the authors' notes, so "on arrival" is generous there;
-for rounds 1 and 3 every change was run first.) After the strengthenings every seeded change is reported by the quick
+for rounds 1, 3 and 4 every change was run first.) After the strengthenings every seeded change is reported by the quick
 tier of some check, except C04-r2-3 (quick: about one seed in four; thorough: always). Changes reported by a different
 check than the one they were written for: C03-r2-1 (C01/C02), C03-r2-2 (C19), C03-r2-3 (C18), C10-r3-2 (C06),
-C19-r3-1 (C13) - each because the behaviour it breaks is that other property's subject.
+C19-r3-1 (C13) - each because the behaviour it breaks is that other property's subject. In round 4 four changes to
+shared helpers were first reported by the helper's own property (C06-r4-1 and C09-r4-1 by C17, C06-r4-2 by C16,
+C20-r4-1 by C19) and silent in the check they were written for; the generators of those checks were then extended
+until they report them too (hub hosts for views, Kneser n > 32, re-entrant weight functions).
 
 | seeded change | what it does (from the author's note) | result |
 |---|---|---|
@@ -69,7 +75,13 @@ class in twelve million; (10) a defect can make the code under test allocate wit
 structure run under a watchdog that saves the case and exits, otherwise the run ends INCONCLUSIVE instead of with a
 verdict; (11) rapid's integer generators favour 0 and range ends: `IntRange(0,n) == 0` is not a rare event (helper `rare`);
 (12) the race detector does not see writes made inside uninstrumented runtime-internal helpers (sort.Slice's swapper):
-argument immutability has to be asserted sequentially as well.
+argument immutability has to be asserted sequentially as well; (13) callbacks handed to the library (pruning predicates,
+weight functions) are part of the input: they should behave like a caller's would - read the live graph through the
+library's own helpers and views, call back into the library - and what they see must agree with a direct reading;
+(14) every result that is a slice is watched: copied on return and compared again after later calls, and every argument
+slice is overwritten after the call, which turns aliasing between caller and library into a visible difference;
+(15) 'a graph with a past' is a representation of its own: each graph is also presented after an add-vertex/remove-vertex
+detour, and as a small view of a much larger host with hub vertices.
 """
 s = open('/verif/DESIGN.md').read()
 tail = ''
